@@ -163,7 +163,8 @@ CHECK_DEADLOCK FALSE
 		}
 		return strings.ToLower(strings.TrimSuffix(strings.TrimPrefix(hrp, "AGE-PLUGIN-"), "-"))
 	}
-	extra := []string{"a,b", "a:b", "a;b", "a=b", "a@b", "a*", "a&b", "a|b", "a'b", "a\"b", "a(b", "a)b", "a<b", "a>b", "a?b", "a[b", "a]b", "a^b", "a`b", "a{b", "a}b", "a$b", "a#b", "foo", "Foo", "FOO", "x.y", "X.Y", "../x", "x/../y", ".x", "..", "/pwn", "/../../tmp/pwn", "a/b", "\\pwn", "~/bin/x", "*a", "a b", "a\tb", "é", ""}
+	// path-like values whose last element (with or without the age-plugin- prefix) is a valid name that IS on PATH
+	extra := []string{"besidepath", "pwn/besidepath", "./age-plugin-besidepath", "../age-plugin-besidepath", "/usr/local/bin/age-plugin-besidepath", "age-plugin-besidepath/", "a,b", "a:b", "a;b", "a=b", "a@b", "a*", "a&b", "a|b", "a'b", "a\"b", "a(b", "a)b", "a<b", "a>b", "a?b", "a[b", "a]b", "a^b", "a`b", "a{b", "a}b", "a$b", "a#b", "foo", "Foo", "FOO", "x.y", "X.Y", "../x", "x/../y", ".x", "..", "/pwn", "/../../tmp/pwn", "a/b", "\\pwn", "~/bin/x", "*a", "a b", "a\tb", "é", ""}
 	for i := range cases {
 		names[nameOf(&cases[i])] = true
 	}
@@ -297,6 +298,15 @@ func cli(run *vk.Run, e *env, names map[string]bool, w *world.World) {
 			list = append(list, n)
 		}
 	}
+	// a fixed order (map order is random): path-like values and names with unusual characters first, so that the quick
+	// tier's cut never drops them
+	sort.Slice(list, func(i, j int) bool {
+		pi, pj := strings.ContainsAny(list[i], "/\\"), strings.ContainsAny(list[j], "/\\")
+		if pi != pj {
+			return pi
+		}
+		return list[i] < list[j]
+	})
 	if !run.Thorough() && len(list) > 60 {
 		list = list[:60]
 	}
@@ -314,6 +324,14 @@ func cli(run *vk.Run, e *env, names map[string]bool, w *world.World) {
 		if !validName(n) {
 			if len(ran) > 0 || p.Exit == 0 {
 				run.Violation("C17:process-started-for-invalid-name:"+sig, fmt.Sprintf("age -j %q: exit %d, started %v", n, p.Exit, ran), rp)
+			}
+			// again with an ordinary PATH (the relative entry above makes Go's PATH search refuse whatever it finds first,
+			// which would hide a program started for a name derived from the invalid value)
+			os.WriteFile(e.log, nil, 0o644)
+			p2 := vk.RunProc(20*time.Second, e.cwd, []string{"PATH=" + e.first + ":" + e.second + ":/usr/bin:/bin", "TMPDIR=" + e.tmp}, []byte("hello"), ageBin, "-e", "-j", n, "-o", filepath.Join(e.root, "out.age"))
+			run.Eval(1)
+			if ran2 := e.started("add-"); len(ran2) > 0 || p2.Exit == 0 {
+				run.Violation("C17:process-started-for-invalid-name:"+sig, fmt.Sprintf("age -j %q: exit %d, started %v", n, p2.Exit, ran2), rp)
 			}
 		} else {
 			// a PATH search finds relbin/age-plugin-NAME (relative to the working directory) first; refusing to run it is fine,
